@@ -170,6 +170,11 @@ LEDGER_STATEMENTS = [
     ('SELECT DISTINCT account, sum(position) AS s GROUP BY account, year ORDER BY year DESC, count(*)', ['account', 's']),
     ('SELECT DISTINCT payee, meta, entry_meta("note") FROM #postings ORDER BY date DESC LIMIT 7', ['payee', 'meta', 'entry_meta("note")']),
     ('SELECT DISTINCT meta["note"] AS n, tags FROM #transactions ORDER BY narration', ['n', 'tags']),
+    # the name of an unaliased target is its text as written: capitals in function names, keywords and string literals included
+    ('SELECT LENGTH(account), Upper(account), account FROM #postings', ['LENGTH(account)', 'Upper(account)', 'account']),
+    ('SELECT SUBST(account, "Cash", "CASH"), \'usd\', \'USD\', number FROM #postings', ['SUBST(account, "Cash", "CASH")', "'usd'", "'USD'", 'number']),
+    ('SELECT account, SUM(position), Count(*), number IS NOT NULL GROUP BY account, 4', ['account', 'SUM(position)', 'Count(*)', 'number IS NOT NULL']),
+    ('SELECT payee ~ "ACME", payee ~ "acme", "Trip" IN tags FROM #transactions', ['payee ~ "ACME"', 'payee ~ "acme"', '"Trip" IN tags']),
 ]
 
 
@@ -208,6 +213,20 @@ def ledger_part(ctx):
                 ctx.violation('c07.names', f'{text}: names {got} expected {names}', {'text': text})
             if any(len(r) != len(names) or not isinstance(r, tuple) for r in rows):
                 ctx.violation('c07.row_shape', f'{text}: a row is not a tuple of one value per described column', {'text': text})
+            if len(set(names)) == len(names):
+                # the statement as a table: SELECT * FROM (statement) lists the same columns under the same names, row for row
+                try:
+                    cur3 = conn.execute(f'SELECT * FROM ({text})')
+                    got3, rows3 = [d.name for d in cur3.description], cur3.fetchall()
+                except Exception as exc:  # noqa: BLE001
+                    ctx.violation('c07.wildcard_failed', f'SELECT * FROM ({text}): {exc!r}', {'text': text})
+                    continue
+                ctx.count('obs.wildcard_over_statements')
+                if got3 != names:
+                    ctx.violation('c07.wildcard_over_statement_names', f'SELECT * FROM ({text}): names {got3} expected {names}', {'text': text})
+                elif len(rows3) != len(rows) or any(len(r) != len(names) for r in rows3):
+                    ctx.violation('c07.row_shape', f'SELECT * FROM ({text}): {len(rows3)} rows of {len(rows3[0]) if rows3 else 0} values, the statement itself gives '
+                                  f'{len(rows)} rows of {len(names)}', {'text': text})
         for tname, table in conn.tables.items():
             if not tname:
                 continue
